@@ -101,6 +101,8 @@ pub struct Outcome {
     pub greeting_len: u64,
     pub pending_at_end: Vec<String>,
     pub fault_fired: bool,
+    /// the post-fault probe (later request + closed flag) was executed
+    pub probe_ran: bool,
 }
 
 impl Outcome {
@@ -476,15 +478,22 @@ async fn session_main(sc: Scenario) -> Outcome {
     let mut fired = false;
     if sc.post_fault_probe && !dropped_by_plan {
         // wait until the planned fault has happened (if it ever does)
-        for _ in 0..3000 {
+        // (progressive polling: sessions with per-byte delays can run for virtual minutes)
+        let t0 = tokio::time::Instant::now();
+        loop {
             if world.inner.lock().unwrap().fault_fired {
                 fired = true;
                 break;
             }
-            tokio::time::sleep(Duration::from_millis(10)).await;
+            let waited = tokio::time::Instant::now() - t0;
+            if waited >= FAR {
+                break;
+            }
+            tokio::time::sleep(if waited < Duration::from_secs(30) { Duration::from_millis(10) } else { Duration::from_secs(5) }).await;
         }
     }
     if sc.post_fault_probe && !dropped_by_plan && fired {
+        out.probe_ran = true;
         tokio::time::sleep(out.d * 4 + Duration::from_secs(1)).await;
         if let Some(cl) = client.as_ref() {
             out.closed_flag_at_end = Some(cl.is_connection_closed());
